@@ -439,7 +439,24 @@ class C10:
             inner = cj[cj.index(("inloop", L.id)) + 1:] if ("inloop", L.id) in cj else ["?"]
             okb = b.get(fs.params[0]) == ("elem", L.id) and b.get("adjust_time_expansion") == ("param", "adjust_time_expansion") and not L.conds \
                 and not inner and b.get("created_by") == ("param", "created_by")
-            if okb:
+            # ... and what it returns is collected into the clip annotation's sound events
+            CA = [x for r_ in s.returns for x in walk(r_.term) if x[0] == "call" and x[1][0] == "global" and x[1][1].endswith(":ClipAnnotation")]
+            collected = None
+            if len(CA) == 1:
+                T = callkw(CA[0]).get("sound_events")
+                if T is not None:
+                    conv = cs[0].term
+                    collected = any(x == conv for x in walk(T))
+                    for al in [x for x in walk(T) if x[0] == "alloc"]:
+                        for e_ in s.calls:
+                            if e_.term[1][0] == "attr" and e_.term[1][1] == al and e_.term[1][2] in ("append", "extend") and e_.term[2] \
+                                    and any(x == conv for x in walk(e_.term[2][0])):
+                                collected = True
+            if okb and collected is False:
+                ctx.bad("R10.5", file, "annotation_to_clip_annotation", f"{fn}(...) results not collected",
+                        f"the annotations produced by {fn} never reach ClipAnnotation(sound_events=...): the elements they were converted from "
+                        f"are missing from the imported clip annotation", cs[0].lineno)
+            elif okb:
                 ctx.ok("R10.5", f"{file}:{cs[0].lineno} annotation_to_clip_annotation", f"{fn}(element, adjust_time_expansion=adjust_time_expansion, created_by=created_by) for every element")
             else:
                 ctx.bad("R10.5", file, "annotation_to_clip_annotation", f"{show(cs[0].term)[:80]}",
